@@ -62,7 +62,23 @@ def selftest_endguard():
             return False
         if f.name.startswith('good_'):
             good += 1
-    return bad >= 2 and good >= 4
+    if not (bad >= 2 and good >= 4):
+        return False
+    # the check-order clause on the order_* functions of the same file
+    import p_memory
+    ob, og = 0, 0
+    for f in u.functions.values():
+        if f.tname.startswith('pos::order_'):
+            v = [o for o in p_memory.rule_check_order(None, [f]) if o.arm == 'order']
+            if f.name.startswith('order_bad_'):
+                if not v:
+                    return False
+                ob += 1
+            else:
+                if v:
+                    return False
+                og += 1
+    return ob >= 2 and og >= 2
 
 
 def selftest_iterinv():
